@@ -5,7 +5,8 @@ From Coq Require Import ZArith List Bool Reals Lia Lra.
 From FT.lib Require Import Num Arr ArrLemmas Lower NumArr.
 From FT.gen Require Import Common Interp2d Interp3d Vinterp2d Vinterp3d FteikCommon Fteik2d Fteik3d Ray2d Ray3d.
 From FT.proofs Require Import SSR InterpR Interp3R Sweep2dProofs OperatorsR.
-From FT.proofs Require Operators3R InitSym InitEquiv NonNeg3d Sym3d.
+From FT.gen Require Import Vinterp2d Vinterp3d.
+From FT.proofs Require Operators3R InitSym InitEquiv NonNeg3d Sym3d VinterpSwap.
 Import ListNotations.
 Open Scope R_scope.
 
@@ -465,6 +466,83 @@ Theorem C18_wrong_axis_clamp_refuted :
        Sym3d.edge_s_z_mut Sym3d.mut_slow' 1 1 1 1 3 2 <> Sym3d.edge_s_z_mut Sym3d.mut_slow 1 1 1 1 2 3.
 Proof. exact @Sym3d.clamp_mutant_refuted. Qed.
 
+(* traveltime (apparent-velocity) interpolation in 2D: relabelling the two axes (transposed grid, swapped query and source coordinates) does not change the value - every query and source, all seven branches (outside, source cell, zero corner, three far faces, generic) *)
+Theorem C18_vinterp2d_axis_swap :
+  forall (x y v vt : arr R) (nx ny : Z),
+       axis x nx ->
+       axis y ny ->
+       shape v = [nx; ny] ->
+       shape vt = [ny; nx] ->
+       (forall i j : Z, (0 <= i < nx)%Z -> (0 <= j < ny)%Z -> get 0 vt [j; i] = get 0 v [i; j]) ->
+       forall xq yq xsrc ysrc vzero fval : R,
+       u_vinterp2d_v x y v xq yq xsrc ysrc vzero fval = u_vinterp2d_v y x vt yq xq ysrc xsrc vzero fval.
+Proof. exact @VinterpSwap.vinterp2d_axis_swap. Qed.
+
+(* 3D: swapping the first two axes *)
+Theorem C18_vinterp3d_axis_swap_xy :
+  forall (x y z v : arr R) (nx ny nz : Z),
+       axis x nx ->
+       axis y ny ->
+       axis z nz ->
+       shape v = [nx; ny; nz] ->
+       forall vt : arr R,
+       shape vt = [ny; nx; nz] ->
+       (forall i j k : Z,
+        (0 <= i < nx)%Z -> (0 <= j < ny)%Z -> (0 <= k < nz)%Z -> get 0 vt [j; i; k] = get 0 v [i; j; k]) ->
+       forall xq yq zq xsrc ysrc zsrc vzero fval : R,
+       u_vinterp3d_v x y z v xq yq zq xsrc ysrc zsrc vzero fval =
+       u_vinterp3d_v y x z vt yq xq zq ysrc xsrc zsrc vzero fval.
+Proof. exact @VinterpSwap.vinterp3d_axis_swap_xy. Qed.
+
+(* 3D: swapping the last two axes *)
+Theorem C18_vinterp3d_axis_swap_yz :
+  forall (x y z v : arr R) (nx ny nz : Z),
+       axis x nx ->
+       axis y ny ->
+       axis z nz ->
+       shape v = [nx; ny; nz] ->
+       forall vt : arr R,
+       shape vt = [nx; nz; ny] ->
+       (forall i j k : Z,
+        (0 <= i < nx)%Z -> (0 <= j < ny)%Z -> (0 <= k < nz)%Z -> get 0 vt [i; k; j] = get 0 v [i; j; k]) ->
+       forall xq yq zq xsrc ysrc zsrc vzero fval : R,
+       u_vinterp3d_v x y z v xq yq zq xsrc ysrc zsrc vzero fval =
+       u_vinterp3d_v x z y vt xq zq yq xsrc zsrc ysrc vzero fval.
+Proof. exact @VinterpSwap.vinterp3d_axis_swap_yz. Qed.
+
+(* 3D: swapping the outer axes *)
+Theorem C18_vinterp3d_axis_swap_xz :
+  forall (x y z v : arr R) (nx ny nz : Z) (xq yq zq xsrc ysrc zsrc vzero fval : R),
+       axis x nx ->
+       axis y ny ->
+       axis z nz ->
+       shape v = [nx; ny; nz] ->
+       u_vinterp3d_v x y z v xq yq zq xsrc ysrc zsrc vzero fval =
+       u_vinterp3d_v z y x (transpose3_xy (transpose3_yz (transpose3_xy v))) zq yq xq zsrc ysrc xsrc vzero fval.
+Proof. exact @VinterpSwap.vinterp3d_axis_swap_xz. Qed.
+
+(* 3D: cyclic relabelling *)
+Theorem C18_vinterp3d_axis_cycle_yzx :
+  forall (x y z v : arr R) (nx ny nz : Z) (xq yq zq xsrc ysrc zsrc vzero fval : R),
+       axis x nx ->
+       axis y ny ->
+       axis z nz ->
+       shape v = [nx; ny; nz] ->
+       u_vinterp3d_v x y z v xq yq zq xsrc ysrc zsrc vzero fval =
+       u_vinterp3d_v y z x (transpose3_yz (transpose3_xy v)) yq zq xq ysrc zsrc xsrc vzero fval.
+Proof. exact @VinterpSwap.vinterp3d_axis_cycle_yzx. Qed.
+
+(* 3D: the other cycle - together all six relabellings *)
+Theorem C18_vinterp3d_axis_cycle_zxy :
+  forall (x y z v : arr R) (nx ny nz : Z) (xq yq zq xsrc ysrc zsrc vzero fval : R),
+       axis x nx ->
+       axis y ny ->
+       axis z nz ->
+       shape v = [nx; ny; nz] ->
+       u_vinterp3d_v x y z v xq yq zq xsrc ysrc zsrc vzero fval =
+       u_vinterp3d_v z x y (transpose3_xy (transpose3_yz v)) zq xq yq zsrc xsrc ysrc vzero fval.
+Proof. exact @VinterpSwap.vinterp3d_axis_cycle_zxy. Qed.
+
 Print Assumptions C18_t_ana_swap.
 Print Assumptions C18_delta_swap.
 Print Assumptions C18_four_point_swap.
@@ -495,3 +573,9 @@ Print Assumptions C18_node_update_3d_relabel_cycle.
 Print Assumptions C18_sweep_3d_transpose_zx.
 Print Assumptions C18_sweep_3d_transpose_xy.
 Print Assumptions C18_wrong_axis_clamp_refuted.
+Print Assumptions C18_vinterp2d_axis_swap.
+Print Assumptions C18_vinterp3d_axis_swap_xy.
+Print Assumptions C18_vinterp3d_axis_swap_yz.
+Print Assumptions C18_vinterp3d_axis_swap_xz.
+Print Assumptions C18_vinterp3d_axis_cycle_yzx.
+Print Assumptions C18_vinterp3d_axis_cycle_zxy.
